@@ -5,7 +5,7 @@ cd "$(dirname "$(readlink -f "$0")")"
 export CARGO_NET_OFFLINE=true
 mkdir -p out evidence
 (cd harness && cargo build --release --offline)
-# libFuzzer targets (used by the thorough tier of C12, C13, C14, C15, C16, C20 only); a failure here does not
+# libFuzzer targets (used by the thorough tier of C02, C09, C10, C12-C16 and C20 only); a failure here does not
 # affect the quick tier
 if [ -f harness/fuzz/Cargo.toml ]; then
   (cd harness && cargo +nightly fuzz build -s none 2>&1 | tail -3) || echo "fuzz targets did not build (thorough tier runs without the libFuzzer campaigns)"
